@@ -213,3 +213,25 @@ def minrun_idempotent():
         ('nothing-added', [minrun_def(B2, n, m, i)], z3.Select(B2, i)),
     ]
     return steps
+
+
+@lemma('epoch_partition')
+def epoch_partition():
+    """C13: the windows (e*L, (e+1)*L], e = 0 .. N-1 with N = ceil(n / L) - exactly the windows epoch_df builds from
+    np.arange(L, n + L, L) and for which its per-epoch postcondition is proved - partition the closing samples 0 < s <= N*L:
+    every cycle of the flattened analysis lands in exactly one epoch, the one whose window contains its closing sample.
+    (Products of two unknowns: nonlinear integer arithmetic, but each step is one multiplication fact.)"""
+    s_, L, N, n, e1, e2 = z3.Ints('s L N n e1 e2')
+    e = (s_ - 1) / L
+    win = lambda ee, ss: z3.And(ee * L < ss, ss <= (ee + 1) * L)
+    return [
+        # the epoch that contains closing sample s is (s - 1) div L
+        ('exists/window', [L > 0, s_ > 0], win(e, s_)),
+        ('exists/index', [L > 0, s_ > 0, s_ <= N * L, win(e, s_)], z3.And(e >= 0, e < N)),
+        # no other epoch contains it
+        ('unique/gap', [L > 0, e1 + 1 <= e2], (e2 - e1 - 1) * L >= 0),
+        ('unique', [L > 0, win(e1, s_), win(e2, s_), z3.Implies(e1 + 1 <= e2, (e2 - e1 - 1) * L >= 0),
+                    z3.Implies(e2 + 1 <= e1, (e1 - e2 - 1) * L >= 0)], e1 == e2),
+        # the N windows cover every sample of the signal, and the last one is not beyond need
+        ('cover', [L > 0, n > 0, N == (n + L - 1) / L], z3.And(N >= 1, N * L >= n, (N - 1) * L < n)),
+    ]
